@@ -44,6 +44,8 @@ func c02Values() []sb.V {
 		{K: "hash"}, {K: "hash", KS: []string{"a", "b"}, E: []sb.V{num(1), str("x")}}, {K: "map:int:str", KV: []sb.V{{K: "int", N: 1}}, E: []sb.V{str("one")}}, {K: "nilmap:str"},
 		person, {K: "ptr", E: []sb.V{person}}, {K: "nilptr:person"}, {K: "ptr", E: []sb.V{{K: "slice:int", E: []sb.V{num(1), num(2)}}}},
 		{K: "stringer", S: "strg"}, {K: "decimal", S: "1.50"}, {K: "safe", TS: []string{"html"}, E: []sb.V{str("<b>")}}, {K: "time"}, {K: "chan"}, {K: "func"},
+		// data that refers back to itself, a nil embedded pointer, a NaN key, a nil hash
+		{K: "cyclicmap"}, {K: "cyclicnode"}, {K: "embednil", S: "Home"}, {K: "map:float64:str", KV: []sb.V{{K: "nan"}}, E: []sb.V{str("nan")}}, {K: "nilmap:value"},
 	}
 }
 
